@@ -162,3 +162,6 @@ Definition timeout_rep (x : N * N) : bool := N.eqb (snd x) 3.
 
 Fixpoint isteps (p : iparams) (n : nat) (s : ist) : ist :=
   match n with O => s | S m => isteps p m (istep p s) end.
+
+(* the contract has been deleted from the log *)
+Definition gone (s : ist) : bool := match i_disk s with IDGone _ => true | _ => false end.
